@@ -57,7 +57,9 @@ class Disk:
     def begin(self, crash: typing.Optional[dict], pause: typing.Optional[dict] = None) -> None:
         self.n = 0
         self.reads = 0
-        self.pause_at = pause['at'] if pause else None
+        mutation = bool(pause and pause.get('on') == 'mutation')
+        self.pause_at = pause['at'] if pause and not mutation else None
+        self.pause_mutation = pause['at'] if mutation else None  # park before the n-th tracked mutation instead
         self.pause_match = tuple(pause.get('match', ())) if pause else ()
         self.log = []
         self.crash_at = crash['at'] if crash else None
@@ -108,6 +110,10 @@ class Disk:
         torn, None otherwise; does not return if the child is to die here."""
         if self.on_point:
             self.on_point()
+        if getattr(self, 'pause_mutation', None) == self.n + 1 and self.on_pause:
+            self.pause_mutation = None
+            self.log.append([self.n, 'paused-before-mutation', self.rel(path), None])
+            self.on_pause()
         self.n += 1
         self.log.append([self.n, kind, self.rel(path), size])
         if self.crash_at == self.n:
